@@ -2573,3 +2573,66 @@ Proof.
       * destruct Hk.
   - rewrite EB. eauto.
 Qed.
+
+(* ================= automatic labels = connected components, stated on instructions ================= *)
+Definition linked (ignore : instr -> bool) (c : circ) : relation nat :=
+  fun a b => exists i, In i c /\ ignore i = false /\ In a (iqs i) /\ In b (iqs i).
+Definition connected (ignore : instr -> bool) (c : circ) : relation nat :=
+  clos_refl_sym_trans nat (linked ignore c).
+Definition untouched (c : circ) (q : nat) : Prop := forall i, In i c -> ~ In q (iqs i).
+
+Lemma all_pairs_complete : forall qs a b, In a qs -> In b qs ->
+  a = b \/ In (a, b) (all_pairs qs) \/ In (b, a) (all_pairs qs).
+Proof.
+  induction qs as [|q r IH]; intros a b Ha Hb; [destruct Ha|]. simpl.
+  destruct Ha as [<-|Ha], Hb as [<-|Hb].
+  - now left.
+  - right; left. apply in_or_app. left. now apply in_map.
+  - right; right. apply in_or_app. left. now apply in_map.
+  - destruct (IH a b Ha Hb) as [E|[E|E]]; [now left|right; left|right; right]; apply in_or_app; now right.
+Qed.
+
+Lemma conn_connected ignore c a b : conn (edges ignore c) a b <-> connected ignore c a b.
+Proof.
+  split; intros H.
+  - induction H as [x y H| | |]; [|apply rst_refl|now apply rst_sym|eapply rst_trans; eauto].
+    apply rst_step. unfold edge_rel, edges in H. apply in_flat_map in H as [i [Hi H]].
+    destruct (ignore i) eqn:IG; [destruct H|]. apply all_pairs_in in H as [Hx Hy]. exists i. auto.
+  - induction H as [x y H| | |]; [|apply rst_refl|now apply rst_sym|eapply rst_trans; eauto].
+    destruct H as [i [Hi [IG [Hx Hy]]]].
+    assert (E : forall u v, In (u, v) (all_pairs (iqs i)) -> In (u, v) (edges ignore c)).
+    { intros u v Huv. unfold edges. apply in_flat_map. exists i. split; [exact Hi|]. now rewrite IG. }
+    destruct (all_pairs_complete (iqs i) x y Hx Hy) as [->|[P|P]].
+    + apply rst_refl.
+    + apply rst_step. now apply E.
+    + apply rst_sym, rst_step. now apply E.
+Qed.
+
+Lemma touched_false_iff c q : touched c q = false <-> untouched c q.
+Proof.
+  unfold touched, untouched. split.
+  - intros H i Hi Hq. assert (X : existsb (fun i0 => memb q (iqs i0)) c = true).
+    { apply existsb_exists. exists i. split; [exact Hi|now apply memb_In]. } congruence.
+  - intros H. destruct (existsb _ c) eqn:E; [|reflexivity]. apply existsb_exists in E as [i [Hi M]].
+    apply memb_In in M. exfalso. exact (H i Hi M).
+Qed.
+
+(* the labels are the connected components of the non-ignored instructions, numbered from 0 by least qubit;
+   a qubit is labelled None iff NO instruction at all (ignored ones included) touches it *)
+Theorem auto_components n ignore c :
+  in_range n c ->
+  let L := auto_labels n ignore false c in
+  length L = n /\
+  (forall q, q < n -> (nth q L None = None <-> untouched c q)) /\
+  (forall a b, a < n -> b < n -> nth a L None <> None ->
+     (nth a L None = nth b L None <-> connected ignore c a b)) /\
+  (forall q k, q < n -> nth q L None = Some k -> forall j, j <= k -> exists q', q' < n /\ nth q' L None = Some j) /\
+  (forall q1 q2 k1 k2, q1 < n -> q2 < n -> nth q1 L None = Some k1 -> nth q2 L None = Some k2 -> k1 < k2 ->
+     exists r1, r1 < n /\ nth r1 L None = Some k1 /\ r1 <= q1 /\ forall x, x < n -> nth x L None = Some k2 -> r1 < x).
+Proof.
+  intros R. destruct (auto_labels_spec n ignore c R) as [A [B [C [D E]]]]. cbv zeta.
+  split; [exact A|]. split; [|split; [|split; [exact D|exact E]]].
+  - intros q Hq. rewrite <- touched_false_iff. now apply B.
+  - intros a b Ha Hb NN. destruct (nth a (auto_labels n ignore false c) None) as [k|] eqn:EA; [|congruence].
+    rewrite <- conn_connected. rewrite <- (C a b k Ha Hb EA). split; [intros <-; reflexivity|intros ->; reflexivity].
+Qed.
